@@ -178,6 +178,8 @@ pub fn write_replay(v: &Violation) -> PathBuf {
         "oracle": v.oracle,
         "detail": v.detail,
         "signature": v.signature,
+        "found_with_verif_seed": std::env::var("VERIF_SEED").ok().and_then(|s| s.trim().parse::<u64>().ok()).unwrap_or(1),
+        "note": "the replay section is self-contained data (program, configuration, fault plan / clock script / hash seed): replaying does not depend on VERIF_SEED",
         "replay": v.replay,
     });
     let text = serde_json::to_string_pretty(&doc).unwrap();
